@@ -26,7 +26,7 @@ def run(ctx, replay_case):
     first = core.run_impl([c.op("S") for c in wf])
     faults = []
     for c, b in zip(wf, first):
-        if not b[-1].startswith("R done") or not ds.widths_ok(b, L) or c.tname == "Stream":
+        if c.tname == "Stream" or not ds.usable(ctx, c, b, L, ctx.stats.setdefault("inputs", {})):
             continue
         faults += ds.size_faults(c, b, L, rnd, ctx.tier)
         faults += ds.value_faults(c, b, L, rnd, ctx.tier, limit=4 if ctx.tier == "quick" else None)
